@@ -435,3 +435,24 @@ Proof.
   - intros p Hin. rewrite forallb_forall in Hp. specialize (Hp p Hin). apply andb_true_iff in Hp as [A B].
     apply negb_true_iff, N.eqb_neq in A. apply N.eqb_eq in B. auto.
 Qed.
+
+(** * the peer index stored in an edge and the peer entry whose hop field is emitted *)
+Lemma peer_edge_consistent e pi :
+  EdgeFull (se_src e) (se_dst e) (se_seg e) (se_edge e) -> e_peer (se_edge e) = Some pi ->
+  exists leaf ae p,
+    last_ia (is_seg (se_seg e)) = Some leaf
+    /\ nth_error (sg_entries (is_seg (se_seg e))) (e_idx (se_edge e)) = Some ae
+    /\ nth_error (ae_peers ae) pi = Some p
+    /\ ((se_src e = VAS leaf /\ se_dst e = VPeer (ae_ia ae) (hf_in (pe_hf p)) (pe_ia p) (pe_if p))
+        \/ (se_src e = VPeer (pe_ia p) (pe_if p) (ae_ia ae) (hf_in (pe_hf p)) /\ se_dst e = VAS leaf))
+    /\ item_hf (e_idx (se_edge e)) (e_peer (se_edge e)) (e_idx (se_edge e), ae) = pe_hf p
+    /\ In (pe_hf p) (edge_hops e).
+Proof.
+  intros (_ & _ & leaf & ae & Hleaf & Hae & Hv) Hp. rewrite Hp in Hv. destruct Hv as (_ & p & Hpe & Hv).
+  exists leaf, ae, p. split; [exact Hleaf|]. split; [exact Hae|]. split; [exact Hpe|]. split; [exact Hv|].
+  assert (Hitem : item_hf (e_idx (se_edge e)) (e_peer (se_edge e)) (e_idx (se_edge e), ae) = pe_hf p).
+  { unfold item_hf, item_peer. rewrite Hp. cbn [fst snd]. rewrite Nat.eqb_refl, Hpe. reflexivity. }
+  split; [exact Hitem|].
+  destruct (edge_items_last e ae Hae) as (rest & Hitems). unfold edge_hops, orient. rewrite Hitems, map_app. cbn [map].
+  rewrite Hitem. destruct (edge_cons_dir e); [apply -> in_rev|]; apply in_or_app; right; left; reflexivity.
+Qed.
